@@ -924,7 +924,7 @@ func gapClass(a, b lexeme) string {
 // rand: seeded random expressions up to depth 6
 func (h *harness) streamRand() {
 	c := h.c
-	n := c.Pick(250000, 6000000)
+	n := c.Pick(250000, 20000000)
 	for idx := 0; idx < n; idx++ {
 		if !c.Mine("rand", idx) {
 			continue
